@@ -19,7 +19,7 @@ RULE = ("every option of the README's Configuration section and of the generate 
         "class_overrides x {class, module, both}, field_prefix, use_path_prefixes_for_title_model_names, literal_enums, "
         "docstrings_on_attributes, generate_all_tags, content_type_overrides, --meta x4, --file-encoding x3, --custom-template-path x "
         "every template file, post_hooks, --output-path) alone and under each of 6 context option sets (pairs), over 6 documents; one "
-        "metamorphic relation per option, checked on bytes, ASTs or executed behaviour; non-trivial = relation evaluated; documents include equal module names under different tags, identical inline enums merged through class_overrides, builtin-like class names, override keys with parameters / upper case / malformed; a multi-tag operation with inline schemas under generate_all_tags, the package name derived from an overridden project name, every option through yaml / json / extension-less config files via the real command line, post-hook lists with missing tools, custom templates with non-ASCII text x file encodings")
+        "metamorphic relation per option, checked on bytes, ASTs or executed behaviour; non-trivial = relation evaluated; documents include equal module names under different tags, identical inline enums merged through class_overrides, builtin-like class names, override keys with parameters / upper case / malformed; a multi-tag operation with inline schemas under generate_all_tags, the package name derived from an overridden project name, every option through yaml / json / extension-less config files via the real command line, post-hook lists with missing tools, custom templates with non-ASCII text x file encodings; name overrides x every metadata flavour x default location / --output-path (where the project and package directories end up)")
 FLOOR = 0.5
 CASE_LIMIT = 120
 ASSUMPTIONS = ["relations per DESIGN §C16; behaviour = re-encoded model instances built from the annotations' inhabitants + captured requests"]
@@ -120,7 +120,7 @@ CONTEXTS = {"none": {}, "literal_enums": {"literal_enums": True}, "docstrings": 
             "all-tags": {"generate_all_tags": True}, "no-title-prefix": {"use_path_prefixes_for_title_model_names": False}}
 OPTIONS = ["project_name_override", "package_name_override", "both_name_overrides", "package_version_override", "class_override_class", "class_override_module",
            "class_override_both", "class_override_enum", "class_override_merge", "field_prefix_attr", "field_prefix_f", "use_path_prefixes_off", "literal_enums", "docstrings_on_attributes", "generate_all_tags",
-           "content_type_overrides", "meta_flavours", "file_encoding_utf16", "file_encoding_utf8sig", "post_hooks", "output_path", "custom_templates", "custom_templates_x_file_encoding", "config_file_formats"]
+           "content_type_overrides", "meta_flavours", "file_encoding_utf16", "file_encoding_utf8sig", "post_hooks", "output_path", "names_x_meta_x_location", "custom_templates", "custom_templates_x_file_encoding", "config_file_formats"]
 
 
 def cases(tier):
@@ -666,6 +666,62 @@ def run_case(p):
             return c
         if base.tree != new.tree:
             V("output-path-changes-tree", "tree", f"tree at --output-path differs from the default location: {_diff(base.tree, new.tree)}")
+    elif opt == "names_x_meta_x_location":
+        # where the package ends up: {no override, project, package, both} x every metadata flavour x {default location in the
+        # working directory, --output-path}.  README: the project directory is <project name> (default <title>-client), the package
+        # <package name> (default: the project name with underscores) inside it; with --meta none the generated directory IS the
+        # package (named after the package at the default location); an explicit output path replaces the project directory.
+        base = _gen(doc, ctx, meta="none")
+        c = crashed(base)
+        if c:
+            return c
+        default_project = None
+        for names in ({}, {"project_name_override": "my-special-project"}, {"package_name_override": "my_extra_pkg"},
+                      {"project_name_override": "my-special-project", "package_name_override": "my_extra_pkg"}):
+            for meta in ("none", "poetry", "pdm", "setup"):
+                for loc in ("default", "outpath"):
+                    d = gen.fresh_dir("cwd")
+                    os.makedirs(d)
+                    cwd = os.getcwd()
+                    res = None
+                    try:
+                        os.chdir(d)
+                        import contextlib
+                        import io
+                        cfg = gen.mkconfig(os.path.join(str(d), "chosen-out") if loc == "outpath" else None, meta, **dict(ctx, **names))
+                        with contextlib.redirect_stdout(io.StringIO()):
+                            data = gen.GeneratorData.from_dict(copy.deepcopy(doc), config=cfg)
+                            proj = gen.Project(openapi=data, config=cfg)
+                            proj.build()
+                        top = sorted(os.listdir(d))
+                        tree = gen.read_tree(d)
+                    except Exception as exc:  # noqa: BLE001
+                        res = gen.crash_info(exc)
+                    finally:
+                        os.chdir(cwd)
+                        shutil.rmtree(d, ignore_errors=True)
+                    steps += 1
+                    if res is not None:
+                        return {"skipped_crash": True, "outcome": f"crash:{res['type']}@{res['where']}", "nontrivial": False}
+                    if default_project is None:
+                        default_project = top[0] if len(top) == 1 else "?"           # {} / none / default: <title>_client
+                    want_project = names.get("project_name_override") or default_project.replace("_", "-")
+                    want_package = names.get("package_name_override") or want_project.replace("-", "_")
+                    if loc == "outpath":
+                        want_top, want_pkgdir = "chosen-out", ("chosen-out" if meta == "none" else f"chosen-out/{want_package}")
+                    elif meta == "none":
+                        want_top = want_pkgdir = want_package
+                    else:
+                        want_top, want_pkgdir = want_project, f"{want_project}/{want_package}"
+                    k_ = f"{key}/{'+'.join(sorted(x.split('_')[0] for x in names)) or 'no-override'}/{meta}/{loc}"
+                    if top != [want_top]:
+                        V("override-not-applied", "project-dir", f"{names} --meta {meta} at the {loc} location: the working directory holds {top}, expected [{want_top!r}]", k=k_)
+                        continue
+                    pk = {f[len(want_pkgdir) + 1:]: b for f, b in tree.items() if f.startswith(want_pkgdir + "/")}
+                    if "client.py" not in pk or "__init__.py" not in pk:
+                        V("override-not-applied", "package-dir", f"{names} --meta {meta} at the {loc} location: no package at {want_pkgdir!r}: {sorted(tree)[:6]}", k=k_)
+                    elif {f: b for f, b in pk.items() if f in base.pkg_tree()} != base.pkg_tree():
+                        V("renaming-changes-package", "package", f"{names} --meta {meta} at the {loc} location: package contents differ from the plain generation", k=k_)
     elif opt == "custom_templates":
         base = _gen(doc, ctx, meta="setup")
         c = crashed(base)
